@@ -99,8 +99,10 @@ func (r *raceReport) key() (k string, harnessOnly bool) {
 				}
 			}
 		}
-		parts = append(parts, r.kinds[s]+" in "+strings.Join(fr, " < "))
+		kind := strings.ToLower(strings.TrimPrefix(r.kinds[s], "Previous "))
+		parts = append(parts, kind+" in "+strings.Join(fr, " < "))
 	}
+	sort.Strings(parts) // "A || B" and "B || A" are the same race
 	return strings.Join(parts, "  ||  "), harnessOnly
 }
 
@@ -176,10 +178,14 @@ func parent() int {
 		ncase = strings.Count("\n"+string(b), "\n# case ")
 	}
 	ncase++
-	line := fmt.Sprintf("# case %d\n!Q conc race-detector all-batches g=0 m=0 inputs=-\n", ncase)
+	// one line saying that the race detector's log was scanned, and one (diverging) line per
+	// distinct race, so that each can be matched by a regular expression on its frames
+	line := fmt.Sprintf("# case %d\n!Q conc race-detector log-scanned g=0 m=0 inputs=-\n", ncase)
 	res := fmt.Sprintf("# case %d\nseq\n", ncase)
-	if len(order) > 0 {
-		res = fmt.Sprintf("# case %d\ndiverged:%d_distinct_data_races_(%d_reports)_see_race_reports.txt\n", ncase, len(order), len(reports))
+	for _, k := range order {
+		tokn := strings.ReplaceAll(strings.ReplaceAll(k, "  ||  ", "||"), " ", "_")
+		line += fmt.Sprintf("!Q conc race-detector %s g=0 m=0 inputs=-\n", tokn)
+		res += fmt.Sprintf("diverged:data_race_reported_%d_times_see_race_reports.txt\n", seen[k].n)
 	}
 	appendFile(*hlib.FlagOps, line)
 	appendFile(*hlib.FlagRes, res)
@@ -204,7 +210,7 @@ func parent() int {
 		}
 		st["oracle_violations"] = viol
 		if n, ok := st["evaluations"].(float64); ok {
-			st["evaluations"] = int(n) + 1
+			st["evaluations"] = int(n) + 1 + len(order)
 		}
 		hist, _ := st["hist"].(map[string]any)
 		if hist == nil {
